@@ -443,9 +443,12 @@ result_t DateTimeDataType::readSymbols(size_t offset, size_t length, const Symbo
           return RESULT_ERR_INVALID_POS;
         }
         // number of minutes since 01.01.2009
-        minutes |= symbol*(1 << (8*i));
+        minutes |= (unsigned long)symbol << (8*i);
         if (i < 3) {
           break;
+        }
+        if (minutes > 0x02da4e1f) {  // 31.12.2099 23:59
+          return RESULT_ERR_OUT_OF_RANGE;  // invalid value
         }
         int mjd = static_cast<int>(minutes/(24*60)) + 54832;  // 01.01.2009
         int y = static_cast<int>((mjd-15078.2)/365.25);
